@@ -31,7 +31,8 @@ AInverse(A) ==
           FMul(id, IF (i + j) % 2 = 0 THEN cof ELSE FNeg(cof))]]
 
 LeafTokens == {"u","v","ux","uy","vx","vy","uxp","vyp","uxx","uxy","c","two","three","half","hpar","hx","gw",
-               "f","f2","cD","twoD","gu","gv","gup","gh","g","x","Hu","Hv","A","J","Gg","Ainv","Jinv"}
+               "f","f2","cD","twoD","gu","gv","gup","gh","g","x","Hu","Hv","A","J","Gg","Ainv","Jinv",
+               "u0","u1","w0","w1","divu","divv","uvec","vvec","Gu","Gv"}      \* vector-valued basis functions
 UnaryTokens == {"neg","sin","cos","exp","log","sqrt","abs","tan","sq","cube","negD","sqD","dx0","dx1","val","gradD",
                 "norm","v0","v1","det","tr","m01","T","inv"}
 IsLeaf(t)  == t \in LeafTokens
